@@ -2,6 +2,7 @@ import FxVerif.Proofs.C06
 import FxVerif.Proofs.C05Ext
 import FxVerif.Proofs.C05Prompt
 import FxVerif.Proofs.C05Sol
+import FxVerif.Props.C01
 /-!
 # C06 — outgoing value is released only once the external chain can no longer run it
 
@@ -359,6 +360,140 @@ theorem executed_never_refunded_call_run_partial (s0 : State) (h0 : IsInit s0) (
   have hk := K_run (K_init h0) (J_init h0) (inv_init h0) ops ((admissibleRun_iff _ _ _).mp ha) hp
   rw [runExt_fst] at hk
   exact hk.k1
+
+/-! ## round 3: the bridge contract's submit functions, interpreted; the event order of C01 -/
+
+/-- the statement lists of `submitBatch` / `submitBridgeCall` / `checkOracleSignatures` as regenerated from
+`FxBridgeLogic.sol` now (`verifySubmitBridgeCall` inlined): which `require`s there are, in which order, and that every
+check — including the signature / power-threshold check — comes before the state update, which comes before the first
+value-moving statement (checks, then effects, then interactions) -/
+theorem solidity_programs :
+    solSubmitBatch.filter (fun st => match st with | .requireOther _ => false | _ => true) =
+      [.require .lastNonce .lt .nonce, .require .blockNumber .lt .timeout, .checkSignatures, .setLastNonce, .moveValue] ∧
+    solSubmitBridgeCall.filter (fun st => match st with | .requireOther _ => false | _ => true) =
+      [.requireNot .nonceUsed, .require .blockNumber .lt .timeout, .checkSignatures, .setNonceUsed, .moveValue] ∧
+    solCheckSignatures.getLast? = some (.require .power .gt .threshold) ∧
+    solSubmitBatch.getLast? = some .moveValue ∧ solSubmitBridgeCall.getLast? = some .moveValue := by decide
+
+/-- what the INTERPRETED `submitBatch` does, for every contract state and submission: it reverts unless
+`state_lastBatchNonces[token] < nonce` and `block.number < timeout`; otherwise it ends having recorded the nonce and moved
+value — so a replay of the same or an older nonce, and any submission at or after the timeout height, reverts -/
+theorem interpreted_submitBatch (st : SolSt) :
+    (solRun solSubmitBatch st).isSome = true ↔ st.lastNonce < st.nonce ∧ st.blockNumber < st.timeout :=
+  by rw [solRun_batch]; split <;> simp_all
+
+theorem interpreted_submitBatch_effect (st st' : SolSt) (h : solRun solSubmitBatch st = some st') :
+    st'.lastNonce = st.nonce ∧ st'.moved = true ∧ (solRun solSubmitBatch { st' with moved := false }).isSome = false := by
+  rw [solRun_batch] at h
+  split at h
+  · cases h
+    refine ⟨rfl, rfl, ?_⟩
+    rw [solRun_batch]
+    simp
+  · cases h
+
+/-- the same for the INTERPRETED `submitBridgeCall`: accepted iff the nonce is unused and `block.number < timeout`;
+afterwards the nonce is used, so the same bridge call can never be run twice -/
+theorem interpreted_submitBridgeCall (st : SolSt) :
+    (solRun solSubmitBridgeCall st).isSome = true ↔ st.nonceUsed = false ∧ st.blockNumber < st.timeout :=
+  by rw [solRun_call]; split <;> simp_all
+
+theorem interpreted_submitBridgeCall_effect (st st' : SolSt) (h : solRun solSubmitBridgeCall st = some st') :
+    st'.nonceUsed = true ∧ st'.moved = true ∧ (solRun solSubmitBridgeCall { st' with moved := false }).isSome = false := by
+  rw [solRun_call] at h
+  split at h
+  · cases h
+    refine ⟨rfl, rfl, ?_⟩
+    rw [solRun_call]
+    simp
+  · cases h
+
+/-- the environment hypothesis of the history theorems is about the interpreted contract: an observed event is
+`admissible` (the interpreted submit function does not revert) iff it satisfies the closed-form rules, and the ghost's
+contract state moves as the interpreted program moves it -/
+theorem admissible_is_interpreted (s : State) (x : Ext) (op : Op) (ops : List Op) :
+    (admissible x op ↔ admissibleStd x op) ∧ x.next s op = x.nextStd s op ∧
+    (AdmissibleRun s x ops ↔ AdmissibleRunStd s x ops) :=
+  ⟨admissible_iff x op, next_eq x s op, admissibleRun_iff s x ops⟩
+
+/-- `refund_excludes_execution` against the interpreted contract: a batch cancelled for time-out at observed height `h`
+makes `submitBatch` revert at every block `h' ≥ h`, whatever the contract's nonce state; a bridge call refunded for
+time-out at `h` makes `submitBridgeCall` revert at every `h' ≥ h` -/
+theorem refund_excludes_execution_interpreted (h h' last : Nat) (used : Bool) (hmono : h ≤ h') :
+    (∀ b : Batch, batchExpired h b = true → solRun solSubmitBatch ⟨h', b.timeout, last, b.nonce, false, false⟩ = none) ∧
+    (∀ (cs : List Call) (c : Call), c ∈ expiredCalls h cs →
+      solRun solSubmitBridgeCall ⟨h', c.timeout, 0, c.nonce, used, false⟩ = none) := by
+  constructor
+  · intro b hb
+    have := (batch_release_rule h b).mp hb
+    rw [solRun_batch, if_neg]
+    simp only; omega
+  · intro cs c hc
+    rw [(call_release_rule h cs).1] at hc
+    have := mem_takeWhile_true _ _ _ hc
+    simp only [decide_eq_true_eq] at this
+    rw [solRun_call, if_neg]
+    simp only; omega
+
+/-- non-vacuity: an accepted batch submission, its replay rejected; a bridge call at its last block, one block later -/
+example : (solRun solSubmitBatch ⟨10, 11, 0, 1, false, false⟩).isSome = true ∧
+    (solRun solSubmitBatch ⟨10, 11, 1, 1, false, false⟩).isSome = false ∧
+    (solRun solSubmitBridgeCall ⟨10, 11, 0, 1, false, false⟩).isSome = true ∧
+    (solRun solSubmitBridgeCall ⟨11, 11, 0, 1, false, false⟩).isSome = false := by decide
+
+/-- **Event order, discharged by C01.**  The history theorems above take the observed events in the order fxcore applies
+them and assume their heights do not decrease.  That the order of application IS the external chain's event-nonce order
+is C01's theorem (`observedLog_contiguous`): along every history of votes, bondings, slashings and deferred executions
+(the C01 model of `Attest`/`TryAttestation`), the nonces of the applied events are exactly `1, 2, …, lastObserved`, in this
+order.  So for every external chain whose block height is non-decreasing in its own event nonce (`block.number` never
+decreases, `state_lastEventNonce` grows by one per event — a fact about the external chain alone), the heights of the
+events in the order fxcore applies them are non-decreasing: the `hmono` of `refund_excludes_execution` and the height part
+of `AdmissibleRun` hold for the composed system.  What is left as an assumption is only the external chain's own
+monotonicity. -/
+theorem event_order_from_C01 (p : FxVerif.Model.C01.Params) (ops : List FxVerif.Model.C01.Op) (extHeight : Nat → Nat)
+    (hext : ∀ i j, i ≤ j → extHeight i ≤ extHeight j) :
+    let applied := (FxVerif.Props.C01.reach p ops).observedLog.map Prod.fst
+    applied = List.range' 1 (FxVerif.Props.C01.reach p ops).lastObserved ∧
+    (applied.map extHeight).Pairwise (· ≤ ·) := by
+  have hc := FxVerif.Props.C01.observedLog_contiguous p ops
+  simp only
+  refine ⟨hc, ?_⟩
+  rw [hc, pairwise_map]
+  exact (pairwise_lt_range' (s := 1) (n := (FxVerif.Props.C01.reach p ops).lastObserved)).imp
+    (fun {a b} hab => hext a b (Nat.le_of_lt hab))
+
+/-- the C05 model applies events in that same order: the k-th successful observation carries event nonce k — `observe`
+answers `eventNonce + 1` and advances the counter by exactly one, a failed one (panic) leaves it alone -/
+theorem observe_applies_next_nonce (s : State) (h : Nat) (ev : Ev) :
+    ((doObserve s h ev).2 = .ok (s.eventNonce + 1) ∧ (doObserve s h ev).1.eventNonce = s.eventNonce + 1) ∨
+    ((doObserve s h ev).2 = .panic ∧ (doObserve s h ev).1 = s) := by
+  rw [doObserve_eq]
+  unfold doObserveStd
+  simp only
+  cases hh : handleEvent { s with eventNonce := s.eventNonce + 1, obsExt := h, obsFx := s.fxHeight } ev with
+  | none => exact Or.inr ⟨rfl, rfl⟩
+  | some s2 =>
+    left
+    refine ⟨rfl, ?_⟩
+    show (cleanupCalls (cleanupBatches s2)).eventNonce = _
+    have h2 : s2.eventNonce = s.eventNonce + 1 := by
+      cases ev with
+      | other => cases hh; rfl
+      | result c ok => cases hh; rfl
+      | batch t n =>
+        simp only [handleEvent] at hh
+        split at hh
+        · cases hh
+        · cases hh; simp [executeBatch, cancelBatches]
+    obtain ⟨fm, hfm⟩ := cleanupCalls_core (cleanupBatches s2)
+    rw [hfm]
+    unfold cleanupCallsCore
+    show (foldl refundCall _ _).eventNonce = _
+    rw [foldl_refundCall_eventNonce]
+    simpa [cleanupBatches, cancelBatches] using h2
+
+/-- non-vacuity of the composition: the C01 demo history applies its events in order -/
+example : ((FxVerif.Props.C01.reach {} []).observedLog.map Prod.fst) = [] := by decide
 
 /-- non-vacuity of `PromptRun` together with `AdmissibleRun`: a bridge call is created, its successful result observed
 and applied, a later event passes the timeout -/
